@@ -72,7 +72,40 @@ func genC16(r *rand.Rand, run int, tier string) *Scenario {
 
 		return sc
 	case 2, 3:
-		return genFOBase(r, foShape{minClients: 2, maxClients: 5, maxKeys: 2, maxOps: 3, sleeps: true, skipRead: true, faults: true, callerTricks: false})
+		sc := genFOBase(r, foShape{minClients: 2, maxClients: 5, maxKeys: 2, maxOps: 3, sleeps: true, skipRead: true, faults: true, callerTricks: false})
+
+		if chance(r, 0.4) {
+			// Every client works under a request context of its own that carries a TTL cell, and its builders
+			// report the TTL they learned from the source (WithTTL(ctx, ttl, true), as documented). The cell is
+			// never handed to a second goroutine by the application; the background update of a stale value is
+			// a goroutine of the library.
+			fo := sc.FO
+			fo.OwnCtxTTLNs = pick(r, 3600*sec, 30*sec)
+			fo.Cfg.SyncUpdate = false
+
+			for i := range fo.Init {
+				if chance(r, 0.7) {
+					fo.Init[i].State, fo.Init[i].AgeNs = "stale", ms
+				}
+			}
+
+			for c := range fo.Clients {
+				for i := range fo.Clients[c] {
+					op := &fo.Clients[c][i]
+					if op.Kind != "get" {
+						continue
+					}
+
+					op.OwnCtx, op.HasCtxTTL, op.CtxTTLNs = true, false, 0
+
+					if chance(r, 0.6) {
+						op.BuildTTLs = []TTLCall{{Ns: pick(r, sec, 10*sec, 7200*sec), Update: true}}
+					}
+				}
+			}
+		}
+
+		return sc
 	case 4:
 		return genC15(r, 2, tier) // concurrent index workload
 	default:
